@@ -23,16 +23,38 @@ from vf.ref import ber
 FLAVOURS = ["bytes", "bytearray", "memoryview"]
 
 
+def same_message(orig: t.Any, got: t.Any) -> t.Optional[str]:
+    from vf.checks import c04
+
+    return c04.same_message(orig, got)
+
+
+def peer_encode(m: t.Any, form: str) -> bytes:
+    """The message as a conforming peer would send it: reference encoder, non-minimal length forms
+    (form '84' = the fixed 4-octet lengths Active Directory emits; 'mixed' cycles 81/82/84/85/min)."""
+    from vf.checks import c04
+
+    tree = c04.build_tree(m)
+    n = len(c04.all_nodes(tree))
+    cyc = ["81", "82", "84", "85", None]
+    chosen = [(i, "len", form if form != "mixed" else cyc[i % 5]) for i in range(n)]
+    return c04.render(tree, [c for c in chosen if c[2]])
+
+
 class Stream:
-    def __init__(self, role: str, prelude: t.List[str], msgs: t.List[t.Any], tail: int, note: str) -> None:
+    def __init__(self, role: str, prelude: t.List[str], msgs: t.List[t.Any], tail: int, note: str, encoding: str = "lib") -> None:
         self.role = role
         self.prelude = prelude  # client calls issued before the stream (so the responses are expected)
         self.msgs = msgs
         self.tail = tail  # 0: ends on a PDU boundary; -1: last byte missing; +1: one byte of a further PDU
         self.note = note
+        self.encoding = encoding  # 'lib' = the library's own encoding; '84' / 'mixed' = a peer's non-minimal lengths
 
     def data(self) -> bytes:
-        b = b"".join(m.pack(K.OPTS) for m in self.msgs)
+        if self.encoding == "lib":
+            b = b"".join(m.pack(K.OPTS) for m in self.msgs)
+        else:
+            b = b"".join(peer_encode(m, self.encoding) for m in self.msgs)
         if self.tail < 0:
             b = b[: self.tail]
         elif self.tail > 0:
@@ -40,7 +62,7 @@ class Stream:
         return b
 
     def describe(self) -> t.Dict[str, t.Any]:
-        return {"role": self.role, "prelude": self.prelude, "msgs": [A.src(m) for m in self.msgs], "tail": self.tail}
+        return {"role": self.role, "prelude": self.prelude, "msgs": [A.src(m) for m in self.msgs], "tail": self.tail, "encoding": self.encoding}
 
 
 PRELUDES: t.Dict[str, t.Callable[[t.Any], t.Any]] = {
@@ -117,6 +139,12 @@ def catalogue(thorough: bool) -> t.List[Stream]:
         out.append(Stream("client", ["bind"], [_with_id(b, 1)], 0, "bindresp"))
     for tail in (-1, 2):
         out.append(Stream("client", ["search"], [_with_id(ent[0], 1), _with_id(ent[-1], 1)], tail, "off-boundary"))
+    # the same kinds of stream as a conforming peer with non-minimal length octets would send them
+    for enc in ("84", "mixed"):
+        out.append(Stream("server", [], [_with_id(sr[0], 1), _with_id(er[0], 2)], 0, "peer-" + enc, enc))
+        out.append(Stream("server", [], [_with_id(er[-1], 1)], 1, "peer-" + enc, enc))
+        out.append(Stream("client", ["search"], [_with_id(ent[0], 1), _with_id(don[0], 1)], 0, "peer-" + enc, enc))
+        out.append(Stream("client", ["bind"], [_with_id(bnd[-1], 1)], 0, "peer-" + enc, enc))
     # long PDUs (long-form lengths): one >255-byte message
     big = L.SearchResultEntry(1, [], "cn=" + "a" * 130, [L.PartialAttribute("m", [b"x" * 140, b"y"])])
     out.append(Stream("client", ["search"], [big, L.SearchResultDone(1, [], L.LDAPResult(L.LDAPResultCode.SUCCESS, "", "", None))], 0, "long"))
@@ -200,7 +228,7 @@ def explore_stream(st: Stream, flavours: t.List[str]) -> evid.Local:
             loc.violation("single-delivery-count", f"{j} bytes hold {expected_count(j)} complete PDUs but receive returned {len(msgs)}", {**case, "cuts": [j]})
             return loc
         for orig, got in zip(st.msgs, msgs):
-            why = K.messages_equal(orig, got)
+            why = K.messages_equal(orig, got) if st.encoding == "lib" else same_message(orig, got)
             if why:
                 loc.violation(f"single-delivery-differs:{K.strip_idx(why)}", f"message altered by receive: {why}", {**case, "cuts": [j]})
                 return loc
@@ -300,7 +328,7 @@ def run(ctx: evid.Ctx) -> None:
 
 
 def replay(case: t.Dict[str, t.Any], key: t.Optional[str] = None) -> t.Tuple[bool, str]:
-    st = Stream(case["role"], case["prelude"], [A.unsrc(m) for m in case["msgs"]], case["tail"], "replay")
+    st = Stream(case["role"], case["prelude"], [A.unsrc(m) for m in case["msgs"]], case["tail"], "replay", case.get("encoding", "lib"))
     s = st.data()
     cuts = [0] + [c for c in case["cuts"] if c] + [len(s)]
     fl = case.get("flavour", "bytes")
